@@ -57,13 +57,13 @@ def run():
     ck = core.Check('C03', 'model_checking',
                     'documents typed by spec/DocGen.tla: exhaustive over all documents of <= 2 blocks at nesting <= 1 with minimal spelling ranges (quick; '
                     'thorough adds <= 2 blocks at nesting <= 2 and <= 3 blocks at nesting <= 1), plus simulated documents of up to 8 (14) blocks at nesting <= 3 (4) '
-                    'with full spelling ranges; plus every line sequence of <= 3 (thorough: 4) lines over nine line alphabets read by spec/BlockParse.tla; '
+                    'with full spelling ranges; plus every line sequence of <= 3 (thorough: 4) lines over twenty line alphabets (and 5 / 6 lines over five small ones) read by spec/BlockParse.tla; '
                     'distinct = distinct source texts; non-trivial = at least two blocks')
     docs = docgen.documents(ck, 'blocks')
     compare(ck, docs, 'DocGen.html')
-    # the other direction: spec/BlockParse.tla READS every line sequence up to 3 (quick) / 4 (thorough) lines over nine line alphabets
+    # the other direction: spec/BlockParse.tla READS every line sequence up to 3 (quick) / 4 (thorough) lines over twenty line alphabets
     # and builds the tree CommonMark assigns to it; the real parser must give the HTML of that tree
-    bdocs = blockparse.documents(ck, 3 if ck.tier == 'quick' else 4)
+    bdocs = blockparse.documents(ck, 3 if ck.tier == 'quick' else 4, deep_more=True)
     compare(ck, bdocs, 'BlockParse.html')
     # binding self-test
     m = core.impl()
